@@ -122,7 +122,7 @@ func checkTime(c *core.Ctx, t time.Time, positions bool) {
 func init() {
 	core.Register(&core.Prop{
 		ID: "C10", Level: "model_checking",
-		Rule: "Exhaustive enumeration of instants, each through the real encoder/decoder at top level, in a struct field and in []time.Time: every millisecond in +-2 s windows around the epoch, +-2^31 s, +-2^32 s, the int64-nanosecond limits (1677-09-21, 2262-04-11), 0001-01-01 and 9999-12-31T23:59:59.999; seven instants in every year 1..9999; sub-millisecond offsets {1, 499999, 500000, 999999 ns} at each boundary; the zero time; (thorough) every whole minute of 1969-12-31..1970-01-02 and every second of the two 2^31 windows +-1h. Oracle: whole-millisecond instants decode Equal, finer ones less than 1 ms away, zero time comes back zero. Distinct by construction.",
+		Rule:        "Exhaustive enumeration of instants, each through the real encoder/decoder at top level, in a struct field and in []time.Time: every millisecond in +-2 s windows around the epoch, +-2^31 s, +-2^32 s, the int64-nanosecond limits (1677-09-21, 2262-04-11), 0001-01-01 and 9999-12-31T23:59:59.999; seven instants in every year 1..9999; sub-millisecond offsets {1, 499999, 500000, 999999 ns} at each boundary; the zero time; (thorough) every whole minute of 1969-12-31..1970-01-02 and every second of the two 2^31 windows +-1h. Oracle: whole-millisecond instants decode Equal, finer ones less than 1 ms away, zero time comes back zero. Distinct by construction.",
 		Assumptions: []string{"*time.Time fields are outside the supported kinds and not exercised"},
 		Units: func(tier string) []core.Unit {
 			var us []core.Unit
@@ -181,6 +181,8 @@ func init() {
 			}
 			return us
 		},
-		RequireCover: func(string) []string { return []string{"years", "zero", "window-0", "window-1", "window-5", "window-8"} },
+		RequireCover: func(string) []string {
+			return []string{"years", "zero", "window-0", "window-1", "window-5", "window-8"}
+		},
 	})
 }
